@@ -1070,7 +1070,7 @@ def install_builtins(interp):
     b["hash"] = B("hash", lambda x: hash(interp.hashable(x)))
     b["callable"] = B("callable", lambda x: isinstance(x, (I.FuncV, I.BoundMethod, I.Builtin, I.ClassV)))
     b["print"] = B("print", lambda *a, **k: None)
-    b["open"] = B("open", lambda *a, **k: I.Opaque("file"))
+    b["open"] = B("open", lambda name, mode="r", **k: I.FileV(name, mode))
 
     def isinstance_(v, spec):
         if isinstance(spec, tuple):
